@@ -73,7 +73,7 @@ macro_rules! rec_arm {
 }
 const M: FixtureScope = FixtureScope::Module;
 
-/// @harness id=c03_spellings props=C03 unwind=40 mem=14 cap=2400 unwindset=find_inner:3;memchr_seq:400;rec~ParseErrorType:3;rec~LexicalErrorType:3;rec~FStringErrorType:3;rec~drop_glue::<std::io::Error:3 gates=oracle
+/// @harness id=c03_spellings props=ATTEMPT tier=thorough unwind=18 mem=14 cap=2400 unwindset=find_inner:3;memchr_seq:400;rec~ParseErrorType:3;rec~LexicalErrorType:3;rec~FStringErrorType:3;rec~drop_glue::<std::io::Error:3;memchr_bytewise:64;sip:48;next_match:40 gates=oracle
 /// D_SPELLINGS: pytest.fixture bare / called, `fixture`, `fixture(scope=, autouse=)`, pytest_asyncio.fixture on an
 /// async def, name= alias with `request`: six definitions with name, scope, autouse, ordered dependencies; the
 /// parameter usages and nothing else.
@@ -87,7 +87,7 @@ rec_arm!(c03_spellings, oracle_only_d_spellings, {
     reach!("c03.spellings.end");
     std::mem::forget(db);
 });
-/// @harness id=c03_not_fixtures props=C03 unwind=40 mem=14 cap=2400 unwindset=find_inner:3;memchr_seq:400;rec~ParseErrorType:3;rec~LexicalErrorType:3;rec~FStringErrorType:3;rec~drop_glue::<std::io::Error:3 gates=oracle
+/// @harness id=c03_not_fixtures props=ATTEMPT tier=thorough unwind=18 mem=14 cap=2400 unwindset=find_inner:3;memchr_seq:400;rec~ParseErrorType:3;rec~LexicalErrorType:3;rec~FStringErrorType:3;rec~drop_glue::<std::io::Error:3;memchr_bytewise:64;sip:48;next_match:40 gates=oracle
 /// D_NOT_FIXTURES: helper, plain class method, a decorated function nested in a function, string and comment
 /// contents: no definition at all; the only usage is the test parameter.
 rec_arm!(c03_not_fixtures, oracle_only_d_not_fixtures, {
@@ -98,7 +98,7 @@ rec_arm!(c03_not_fixtures, oracle_only_d_not_fixtures, {
     reach!("c03.not_fixtures.end");
     std::mem::forget(db);
 });
-/// @harness id=c03_class props=C03,C15 unwind=40 mem=14 cap=2400 unwindset=find_inner:3;memchr_seq:400;rec~ParseErrorType:3;rec~LexicalErrorType:3;rec~FStringErrorType:3;rec~drop_glue::<std::io::Error:3 gates=oracle
+/// @harness id=c03_class props=ATTEMPT tier=thorough unwind=18 mem=14 cap=2400 unwindset=find_inner:3;memchr_seq:400;rec~ParseErrorType:3;rec~LexicalErrorType:3;rec~FStringErrorType:3;rec~drop_glue::<std::io::Error:3;memchr_bytewise:64;sip:48;next_match:40 gates=oracle
 /// D_CLASS: class-nested fixture and test method (self is no request), usefixtures on a class.
 rec_arm!(c03_class, oracle_only_d_class, {
     let db = FixtureDatabase::new();
@@ -108,7 +108,7 @@ rec_arm!(c03_class, oracle_only_d_class, {
     reach!("c03.class.end");
     std::mem::forget(db);
 });
-/// @harness id=c03_yield props=C03 unwind=40 mem=14 cap=2400 unwindset=find_inner:3;memchr_seq:400;rec~ParseErrorType:3;rec~LexicalErrorType:3;rec~FStringErrorType:3;rec~drop_glue::<std::io::Error:3 gates=oracle
+/// @harness id=c03_yield props=ATTEMPT tier=thorough unwind=18 mem=14 cap=2400 unwindset=find_inner:3;memchr_seq:400;rec~ParseErrorType:3;rec~LexicalErrorType:3;rec~FStringErrorType:3;rec~drop_glue::<std::io::Error:3;memchr_bytewise:64;sip:48;next_match:40 gates=oracle
 /// D_YIELD: a nested yield textually before a top-level yield (yield line = the first in source order), a plain
 /// `-> int` fixture, a `Generator[int, None, None]` generator with the yield inside `with` (return type = int).
 rec_arm!(c03_yield, oracle_only_d_yield, {
@@ -119,7 +119,7 @@ rec_arm!(c03_yield, oracle_only_d_yield, {
     reach!("c03.yield.end");
     std::mem::forget(db);
 });
-/// @harness id=c03_doc props=C03 unwind=40 mem=14 cap=2400 unwindset=find_inner:3;memchr_seq:400;rec~ParseErrorType:3;rec~LexicalErrorType:3;rec~FStringErrorType:3;rec~drop_glue::<std::io::Error:3 gates=oracle
+/// @harness id=c03_doc props=ATTEMPT tier=thorough unwind=18 mem=14 cap=2400 unwindset=find_inner:3;memchr_seq:400;rec~ParseErrorType:3;rec~LexicalErrorType:3;rec~FStringErrorType:3;rec~drop_glue::<std::io::Error:3;memchr_bytewise:64;sip:48;next_match:40 gates=oracle
 /// D_DOC: multi-line docstring with an interior whitespace-only line shorter than the body indentation: cleaned
 /// docstring as inspect.cleandoc gives it.
 rec_arm!(c03_doc, oracle_only_d_doc, {
@@ -130,7 +130,7 @@ rec_arm!(c03_doc, oracle_only_d_doc, {
     reach!("c03.doc.end");
     std::mem::forget(db);
 });
-/// @harness id=c03_assign_marks props=C03,C15 unwind=50 mem=14 cap=2400 unwindset=find_inner:3;memchr_seq:400;rec~ParseErrorType:3;rec~LexicalErrorType:3;rec~FStringErrorType:3;rec~drop_glue::<std::io::Error:3 gates=oracle
+/// @harness id=c03_assign_marks props=ATTEMPT tier=thorough unwind=18 mem=14 cap=2400 unwindset=find_inner:3;memchr_seq:400;rec~ParseErrorType:3;rec~LexicalErrorType:3;rec~FStringErrorType:3;rec~drop_glue::<std::io::Error:3;memchr_bytewise:64;sip:48;next_match:40 gates=oracle
 /// D_ASSIGN: assignment-style fixture `h = pytest.fixture()(_impl)`, pytestmark list, indirect parametrize, test parameter.
 rec_arm!(c03_assign_marks, oracle_only_d_assign, {
     let db = FixtureDatabase::new();
@@ -140,7 +140,7 @@ rec_arm!(c03_assign_marks, oracle_only_d_assign, {
     reach!("c03.assign.end");
     std::mem::forget(db);
 });
-/// @harness id=c03_annotations props=C03 unwind=40 mem=14 cap=2400 unwindset=find_inner:3;memchr_seq:400;rec~ParseErrorType:3;rec~LexicalErrorType:3;rec~FStringErrorType:3;rec~drop_glue::<std::io::Error:3 gates=oracle
+/// @harness id=c03_annotations props=ATTEMPT tier=thorough unwind=18 mem=14 cap=2400 unwindset=find_inner:3;memchr_seq:400;rec~ParseErrorType:3;rec~LexicalErrorType:3;rec~FStringErrorType:3;rec~drop_glue::<std::io::Error:3;memchr_bytewise:64;sip:48;next_match:40 gates=oracle
 /// D_ANNOT: return annotations — subscript, attribute | None union, string forward reference; a defaulted
 /// parameter (`x: int = 3`, NOT a fixture request in pytest) and a keyword-only one (`y`, a request).
 rec_arm!(c03_annotations, oracle_only_d_annot, {
@@ -164,7 +164,7 @@ rec_arm!(c03_annotations, oracle_only_d_annot, {
     reach!("c03.annot.end");
     std::mem::forget(got); std::mem::forget(db);
 });
-/// @harness id=c03_async_gen props=C03 unwind=40 mem=14 cap=2400 unwindset=find_inner:3;memchr_seq:400;rec~ParseErrorType:3;rec~LexicalErrorType:3;rec~FStringErrorType:3;rec~drop_glue::<std::io::Error:3 gates=oracle
+/// @harness id=c03_async_gen props=ATTEMPT tier=thorough unwind=18 mem=14 cap=2400 unwindset=find_inner:3;memchr_seq:400;rec~ParseErrorType:3;rec~LexicalErrorType:3;rec~FStringErrorType:3;rec~drop_glue::<std::io::Error:3;memchr_bytewise:64;sip:48;next_match:40 gates=oracle
 /// D_ASYNC_GEN: async generator fixture, yield inside `async with`: generator status and yielded type.
 rec_arm!(c03_async_gen, oracle_only_d_async_gen, {
     let db = FixtureDatabase::new();
@@ -183,7 +183,7 @@ rec_arm!(c03_async_gen, oracle_only_d_async_gen, {
 });
 
 // ------------------------------------------------------------------------------------------------ C15
-/// @harness id=c15_utf16_columns props=C15 unwind=60 mem=14 cap=2400 unwindset=find_inner:3;memchr_seq:400;rec~ParseErrorType:3;rec~LexicalErrorType:3;rec~FStringErrorType:3;rec~drop_glue::<std::io::Error:3 gates=oracle
+/// @harness id=c15_utf16_columns props=ATTEMPT tier=thorough unwind=18 mem=14 cap=2400 unwindset=find_inner:3;memchr_seq:400;rec~ParseErrorType:3;rec~LexicalErrorType:3;rec~FStringErrorType:3;rec~drop_glue::<std::io::Error:3;memchr_bytewise:64;sip:48;next_match:40 gates=oracle
 /// D_POS_UTF16: a usefixtures name after a 2-byte (U+00E9) and after a 4-byte (U+1F600) character on the same
 /// line: the recorded span must be the string content in UTF-16 columns (31..33 and 32..34).
 rec_arm!(c15_utf16_columns, oracle_only_d_pos_utf16, {
@@ -205,7 +205,7 @@ rec_arm!(c15_utf16_columns, oracle_only_d_pos_utf16, {
     reach!("c15.utf16.end");
     std::mem::forget(got); std::mem::forget(db);
 });
-/// @harness id=c15_string_literal_forms props=C15 unwind=60 mem=14 cap=2400 unwindset=find_inner:3;memchr_seq:400;rec~ParseErrorType:3;rec~LexicalErrorType:3;rec~FStringErrorType:3;rec~drop_glue::<std::io::Error:3 gates=oracle
+/// @harness id=c15_string_literal_forms props=ATTEMPT tier=thorough unwind=18 mem=14 cap=2400 unwindset=find_inner:3;memchr_seq:400;rec~ParseErrorType:3;rec~LexicalErrorType:3;rec~FStringErrorType:3;rec~drop_glue::<std::io::Error:3;memchr_bytewise:64;sip:48;next_match:40 gates=oracle
 /// D_POS_LITERALS: usefixtures(r"fa", '''fb''', "fc"): each recorded span must cover exactly the string content.
 rec_arm!(c15_string_literal_forms, oracle_only_d_pos_literals, {
     let db = FixtureDatabase::new();
@@ -227,7 +227,7 @@ rec_arm!(c15_string_literal_forms, oracle_only_d_pos_literals, {
 });
 
 // ------------------------------------------------------------------------------------------------ C17
-/// @harness id=c17_undeclared_scan props=C17 unwind=40 mem=16 cap=2400 unwindset=find_inner:3;memchr_seq:400;rec~ParseErrorType:3;rec~LexicalErrorType:3;rec~FStringErrorType:3;rec~drop_glue::<std::io::Error:3 gates=oracle,seed
+/// @harness id=c17_undeclared_scan props=ATTEMPT tier=thorough unwind=18 mem=16 cap=2400 unwindset=find_inner:3;memchr_seq:400;rec~ParseErrorType:3;rec~LexicalErrorType:3;rec~FStringErrorType:3;rec~drop_glue::<std::io::Error:3;memchr_bytewise:64;sip:48;next_match:40 gates=oracle,seed
 /// The sibling conftest (fs, fb — registered FIRST) and the /a conftest (fa, fb, fm, fl) are analysed, then
 /// D_U_TEST: `fb` used as call target, argument, attribute base, operand, subscript value and list element is
 /// flagged at exactly its position, six times; the parameter fa, the invisible fs, the unknown zz, the
@@ -279,44 +279,37 @@ macro_rules! ins_case {
     }};
 }
 /// @harness id=c17_insertion_templates props=C17 unwind=60 mem=10 cap=1800
-/// get_function_param_insertion_info + the edit derived from it on signature templates chosen by a symbolic
-/// selector: no parameter, one parameter, method, async, multi-line without trailing comma — the edited text must
-/// be the same function with `fx` appended as a parameter.
+/// get_function_param_insertion_info + the edit derived from it on signature templates, executed one after the other
+/// (concretely): no parameter, one parameter, method, async + annotation, multi-line without trailing comma — the
+/// edited text must be the same function with `fx` appended as a parameter.
 #[cfg_attr(kani, kani::proof)]
 #[cfg_attr(kani, kani::stub(std::path::Path::canonicalize, crate::stubs::canonicalize_err))]
 #[cfg_attr(kani, kani::stub(core::unicode::unicode_data::white_space::lookup, crate::stubs::uni_white_space))]
 #[cfg_attr(kani, kani::stub(core::slice::memchr::memchr, crate::stubs::memchr_bytewise))]
 pub fn c17_insertion_templates() {
-    let k: u8 = any();
-    assume(k < 5);
-    let ok = match k {
-        0 => ins_case!("def test_a():\n    pass\n", 1, "def test_a(fx):\n    pass\n"),
-        1 => ins_case!("def test_a(x):\n    pass\n", 1, "def test_a(x, fx):\n    pass\n"),
-        2 => ins_case!("class T:\n    def test_m(self):\n        pass\n", 2, "class T:\n    def test_m(self, fx):\n        pass\n"),
-        3 => ins_case!("async def test_a(x: int):\n    pass\n", 1, "async def test_a(x: int, fx):\n    pass\n"),
-        _ => ins_case!("def test_a(\n    x\n):\n    pass\n", 1, "def test_a(\n    x\n, fx):\n    pass\n"),
-    };
-    check!("c17.insertion.same_function_gets_parameter", ok);
+    crate::stubs::draw_uni_mask();
+    check!("c17.insertion.no_parameter", ins_case!("def test_a():\n    pass\n", 1, "def test_a(fx):\n    pass\n"));
+    check!("c17.insertion.one_parameter", ins_case!("def test_a(x):\n    pass\n", 1, "def test_a(x, fx):\n    pass\n"));
+    check!("c17.insertion.method", ins_case!("class T:\n    def test_m(self):\n        pass\n", 2, "class T:\n    def test_m(self, fx):\n        pass\n"));
+    check!("c17.insertion.async_annotated", ins_case!("async def test_a(x: int):\n    pass\n", 1, "async def test_a(x: int, fx):\n    pass\n"));
+    check!("c17.insertion.multi_line", ins_case!("def test_a(\n    x\n):\n    pass\n", 1, "def test_a(\n    x\n, fx):\n    pass\n"));
     reach!("c17.insertion.end");
 }
 /// @harness id=c17_insertion_known_gaps props=C17 unwind=60 mem=10 cap=1800
 /// the signature forms on which the text search is known to go wrong: return annotation (the next function is
-/// edited), trailing comma (`,,`), defaulted last parameter (non-default after default).
+/// edited), trailing comma in a multi-line signature (`,,`).
 #[cfg_attr(kani, kani::proof)]
 #[cfg_attr(kani, kani::stub(std::path::Path::canonicalize, crate::stubs::canonicalize_err))]
 #[cfg_attr(kani, kani::stub(core::unicode::unicode_data::white_space::lookup, crate::stubs::uni_white_space))]
 #[cfg_attr(kani, kani::stub(core::slice::memchr::memchr, crate::stubs::memchr_bytewise))]
 pub fn c17_insertion_known_gaps() {
-    let k: u8 = any();
-    assume(k < 2);
-    let ok = match k {
-        0 => ins_case!("def test_a() -> None:\n    pass\n\ndef test_b(x):\n    pass\n", 1, "def test_a(fx) -> None:\n    pass\n\ndef test_b(x):\n    pass\n"),
-        _ => ins_case!("def test_a(\n    x,\n):\n    pass\n", 1, "def test_a(\n    x,\n    fx):\n    pass\n"),
-    };
+    crate::stubs::draw_uni_mask();
+    let a = ins_case!("def test_a() -> None:\n    pass\n\ndef test_b(x):\n    pass\n", 1, "def test_a(fx) -> None:\n    pass\n\ndef test_b(x):\n    pass\n");
+    let b = ins_case!("def test_a(\n    x,\n):\n    pass\n", 1, "def test_a(\n    x,\n    fx):\n    pass\n");
     if crate::kf::C17_INSERTION_TEXT_SEARCH {
-        check!("KF:c17.insertion.return_annotation_or_trailing_comma", ok);
+        check!("KF:c17.insertion.return_annotation_or_trailing_comma", a && b);
     } else {
-        check!("c17.insertion.return_annotation_or_trailing_comma", ok);
+        check!("c17.insertion.return_annotation_or_trailing_comma", a && b);
     }
     reach!("c17.insertion_gaps.end");
 }
